@@ -546,6 +546,11 @@ fn workers(op: &'static str, cause: &'static str) -> Body {
     let o: Obs = match op {
       "interval" => observables::interval(d, nt()).map(|x: u64| x as i64),
       "timer" => observables::timer(d, nt()).map(|_| 1i64),
+      // the subscription ends before the timer / the first tick fires
+      "timer_late" => observables::timer(Duration::from_millis(60), nt()).map(|_| 1i64),
+      "interval_late" => observables::interval(Duration::from_millis(60), nt()).map(|x: u64| x as i64),
+      // a timer used as the trigger of a source that ends first
+      "trigger_timer" => s.observable().take_until(observables::timer(Duration::from_millis(60), nt())),
       "observe_on" => s.observable().observe_on(nt()),
       "subscribe_on" => cold.subscribe_on(nt()),
       "debounce" => s.observable().debounce(d, nt()),
@@ -572,7 +577,7 @@ fn workers(op: &'static str, cause: &'static str) -> Body {
     };
     meta(serde_json::json!({"kind": "workers", "op": op, "cause": cause}));
     let sub = subscribe_rec(&o, "A");
-    let driven = matches!(op, "observe_on" | "debounce" | "timeout" | "delay_observe_on");
+    let driven = matches!(op, "observe_on" | "debounce" | "timeout" | "delay_observe_on" | "trigger_timer");
     if driven {
       // the source emits from the harness
       s.next("p1", 1);
@@ -729,6 +734,10 @@ pub fn catalogue() -> Vec<(String, Vec<&'static str>)> {
       }
       v.push((format!("workers:{}:{}", op, cause), vec!["C15", "C07"]));
     }
+  }
+  for (op, cause) in [("timer_late", "unsubscribe"), ("timer_late", "take_until"), ("interval_late", "unsubscribe"), ("interval_late", "take_until"),
+    ("trigger_timer", "complete"), ("trigger_timer", "error"), ("trigger_timer", "unsubscribe")] {
+    v.push((format!("workers:{}:{}", op, cause), vec!["C15", "C07"]));
   }
   for op in ["observe_on", "subscribe_on", "subscribe_on_retry", "observe_on_map", "subscribe_on_observe_on", "delay", "debounce", "timer", "interval_take", "timeout"] {
     v.push((format!("resub:{}", op), vec!["C14", "C07", "C15"]));
